@@ -125,6 +125,9 @@ def execute(case, ctx):
         files["pyproject.toml"] = sim.pyproject_for(fmt)
     flags = ",".join((["report"] if driver == "plugin" else []) + sorted(approved)) or None
     spec = {"flags": flags, "fmt": fmt}
+    if driver == "plugin" and case.get("bytecode", True):
+        spec.update(persistent=True, bytecode=True)
+        ctx.count("probe_persistent_directory_with_bytecode_cache")
     s0 = sim.to_bytes(files)
     s1, r1 = sim.run_session(ctx, driver, s0, spec)
     if not sim.session_completed(driver, r1):
